@@ -257,7 +257,7 @@ USER_OK = {"presence": True, "verification": True}
 def cd_mode(rng, k=None):
     k = rng.randrange(3) if k is None else k
     if k == 1:
-        return {"mode": "extra", "extra": rng.choice([{"extra": "data"}, {"androidPackageName": "com.example.app", "n": 7}, {"k\"ey": "v\\al\n", "nested": {"a": [1, 2]}}])}
+        return {"mode": "extra", "extra": rng.choice([{"extra": "data"}, {"androidPackageName": "com.example.app", "n": 7}, {"k\"ey": "v\\al\n", "nested": {"a": [1, 2]}}, {}])}
     if k == 2:
         return {"mode": "hash", "hash": bytes(rng.randrange(256) for _ in range(rng.choice([32, 32, 0, 5]))).hex()}
     return {"mode": "default"}
@@ -327,6 +327,17 @@ def directed(run):
         scs.append(client_scenario(**kw)); meta.append(("directed", tag))
     for n in ID_LENS:
         add("idlen%d" % n, store_kind="ref", config={"id_len": n, "counter": n % 2 == 0}, user={"script": [USER_OK]}, ops=[reg_op(rng)])
+    # members the client does not act on: every attestation preference (the attestation object is a "none" attestation whatever
+    # the relying party prefers), timeouts, hints, formats, attachment - alone and all together
+    for kind in ("ref", "memory"):
+        for k, vals in ceremony.IGNORED_MEMBERS.items():
+            for v in vals[1:]:
+                add("ignored/%s/%s=%s" % (kind, k, v), store_kind=kind, user={"script": [USER_OK]},
+                    ops=[ceremony.with_ignored(reg_op(rng, selection={"rk": "preferred", "require_rk": False, "uv": "preferred"}), **{k: v})])
+        for att in ("platform", "cross-platform"):
+            add("ignored/%s/attachment=%s" % (kind, att), store_kind=kind, user={"script": [USER_OK]}, ops=[ceremony.with_ignored(reg_op(rng), attachment=att)])
+        add("ignored/%s/all" % kind, store_kind=kind, user={"script": [USER_OK]},
+            ops=[ceremony.with_ignored(reg_op(rng), attestation="enterprise", timeout=1, hints=["hybrid"], attestation_formats=["packed"], attachment="platform")])
     for ps in PARAMS:
         add("params%s" % (ps,), store_kind="ref", user={"script": [USER_OK] * 2},
             ops=[reg_op(rng, params=ps), reg_op(rng, params=ps, origin="https://other.org", rp_id=None)])
